@@ -109,6 +109,17 @@ Theorem C07_inbound : forall p s n f, f_pt f = 0 -> f_st f = 0 -> selected s = f
 Proof. exact inbound_not_selected. Qed.
 Print Assumptions C07_inbound.
 
+(** An orphan Select.rsp(0) — system bytes of no open Select transaction — is answered Reject(3) and
+    does NOT select the session (the commit happens only on a registry hit), so the connection stays
+    not-selected for the gate and for inbound data. *)
+Theorem C07_orphan_select_rsp_no_commit : forall p s n f, f_pt f = 0 -> f_body f = [] ->
+  (f_st f = 2 \/ f_st f = 4 \/ f_st f = 6) -> reg_get (gen s) (f_sys f) (reg s) = None ->
+  dispatch p s n f = (enq_int s (reject_not_open f), []) /\
+  st (enq_int s (reject_not_open f)) = st s /\ calls (enq_int s (reject_not_open f)) = calls s /\
+  f_st (reject_not_open f) = 7 /\ f_b3 (reject_not_open f) = 3 /\ f_b2 (reject_not_open f) = f_st f /\
+  f_sys (reject_not_open f) = f_sys f.
+Proof. exact orphan_rsp_no_commit. Qed.
+
 (** The log-level inbound/pipeline clause of ok_C07 ([chk_inbound]: which Reject(4) answers which
     frame, matched greedily by session id and system bytes) judges the logs of the real
     implementation and the model runs of the examples; its acceptance of ALL model runs is not proved
